@@ -8,7 +8,7 @@ HOOKS = {
 ENGINES = [
     {"name": "SCHED", "path": "/verif/amc/shim/vsched + /verif/amc/explore + /verif/amc/instr", "serves_properties": ["C04"],
      "kind_free_text": "stateless model checking: source instrumenter (go build -overlay) turns every sync/atomic/go/channel operation into a schedule point of a cooperative scheduler running inside a testing/synctest bubble; DFS over choice lists with iterative deviation bounding, causal zero-cost continuation, conflict-based point reduction, replayable schedules"},
-    {"name": "SEQ", "path": "/verif/amc/kit", "serves_properties": ["C01", "C02"],
+    {"name": "SEQ", "path": "/verif/amc/kit", "serves_properties": ["C01", "C02", "C05"],
      "kind_free_text": "sequential explicit-state search: BFS over the states of real machines (successor = fresh instance + replayed shortest path + one operation), enumerated schema spaces, reference predicates"},
 ]
 NOTES = "All checks run the real code of /repo rebuilt from its working tree; exit 0 held / 1 unlisted violation / 2 harness error. known-findings.jsonl lists recorded genuine defects (printed as KNOWN-FINDING) and fixed ones (replayed as regressions)."
@@ -34,5 +34,12 @@ LEVELS = {
         "text": "Eight closed 2-3 thread drivers (plain, canceled, handler that mutates, veto, Eval, CanAdd, queue limit) are executed under every schedule with <= bound deviations (quick 2 handler-less / 1 with handlers, thorough 3/2); oracle at every quiescence: handler/eval mutual exclusion, no nested transitions, queue-tick order, no stranded mutation on an idle machine, WhenQueue closed for processed ticks, no deadlock. Exhaustive within the stated bound, which is what a lost-CAS window needs.",
         "design_ref": "DESIGN.md section 5 C04, section 4.2",
         "note": "Trusted: instrumenter/shims (every sync, atomic, go, channel op of pkg/machine is a schedule point), synctest fake clock. Not covered: >3 threads, deviations above the bound, handler timeouts (excluded by the statement).",
+    },
+    "C05": {
+        "engine": "SEQ",
+        "technique": "explicit-state model checking with enumerated veto positions: real machine + logging handlers, handler trace vs documented lifecycle",
+        "text": "Every transition of the enumerated After/Require schema spaces from every reachable state runs with logging handlers for every handler name (1 and 2 bindings), fault-free and once per veto position; the handler trace is checked for phase order, After/Require precedence, before/after visibility, veto stops everything, finals exactly once per changed state per binding.",
+        "design_ref": "DESIGN.md section 5 C05",
+        "note": "Trusted: handler names over single-letter states are parsed by the harness; machines run in synctest bubbles. Struct (reflection) handlers and StatePrefix bindings are covered by C20/C08 harnesses only lightly.",
     },
 }
